@@ -171,6 +171,9 @@ contract(
         "_resolve_target_set": [_VALID_VALUE, "len(source.expressions) == 1"],
         "_resolve_npath": [_VALID_VALUE, "len(source.expressions) == 1"],
         "_set_value_in_attrset": ["value_expr is parsed_value.expressions[0]"],
+        # the body of the attribute set is edited through a scoped path only on a document without any let layer (the pinned
+        # shortcut); as soon as a layer exists, `@name` writes a layer, never the body (C09: "the attribute set body keeps its text")
+        "_set_value_in_attrset#0": ["len(layers) == 0 and depth == 1", "target_set is target_expr"],
         # C09: `@`xd addresses layers[len(layers) - d]; the attrset handed to the edit wraps exactly that layer's scope
         "_set_value_in_attrset#1": ["depth >= 1 and depth <= len(layers)", "target_set.values is layers[len(layers) - depth].scope",
                                     "target_set.attrpath_order is layers[len(layers) - depth].attrpath_order"],
